@@ -106,6 +106,12 @@ func genC05(w *bufio.Writer, tier string, rng *rand.Rand) {
 		sg := logUniform(rng, 1e-6, 1e6)
 		if rng.Intn(4) == 0 {
 			mu, sg = 0, 1
+		} else if rng.Intn(10) == 0 { // a mean exactly at (or an ulp from) a power of two with a tiny scale: x-Mu, 2Mu-x … round differently on the two sides
+			mu = math.Ldexp(1, rng.Intn(40)-10) * float64(rng.Intn(2)*2-1)
+			if rng.Intn(3) == 0 {
+				mu = math.Nextafter(mu, 0)
+			}
+			sg = math.Abs(mu) * math.Pow(10, -float64(6+rng.Intn(7)))
 		} else if rng.Intn(8) == 0 { // unit scale, shifted; unit shift, scaled
 			mu, sg = []float64{10, -0.5, 1e6}[rng.Intn(3)], 1
 		}
@@ -146,6 +152,9 @@ func genC05(w *bufio.Writer, tier string, rng *rand.Rand) {
 				v = float64([]int{1, 2, 3, 100, 170, 171, 300, 342, 343, 344, 399, 400}[rng.Intn(12)])
 			default:
 				v = logUniform(rng, 0.1, 1e4)
+			}
+			if rng.Intn(6) == 0 { // V/2 or (V+1)/2 next to the largest argument with a finite Gamma (171.62…)
+				v = 2*171.6243769563027 - float64(rng.Intn(2)) + (rng.Float64()*1.4 - 1.2)
 			}
 			var pos []float64
 			for i := 0; i < 5; i++ {
